@@ -281,15 +281,22 @@ let out_parsed mapkeys = function
   | Some (PEntry (id, dn, attrs)) ->
     String.concat " " ["entry"; string_of_z id; hex_of_bytes dn; out_attrs (sort_first mapkeys attrs)]
 
+(* a response may be written more than once, with setters in between: "write" among the setters *)
+type sw = Set of setter | WriteNow
+let next_sw t = match t.rest with "write" :: r -> t.rest <- r; WriteNow | _ -> Set (next_setter t)
 let do_resp t =
   let id = next_z t in let k = next_rkind t in let dn = next_hex t in
-  let opts = next_list t next_ropt in let sets = next_list t next_setter in
+  let opts = next_list t next_ropt in let sets = next_list t next_sw in
   let mapkeys = List.fold_left (fun acc o -> match o with WAttrs m -> List.length m | _ -> acc) 0 opts in
   match new_response true k id dn opts with
   | Ok r ->
-    let r = run_setters r sets in
-    let bs = response_bytes r in
-    (if mapkeys >= 2 then "-" else hex_of_bytes bs) ^ " | " ^ out_parsed mapkeys (parse_response prim_reject bs)
+    let render r =
+      let bs = response_bytes r in
+      (if mapkeys >= 2 then "-" else hex_of_bytes bs) ^ " | " ^ out_parsed mapkeys (parse_response prim_reject bs) in
+    let (r, outs) = List.fold_left (fun (r, acc) x -> match x with
+        | Set st -> (run_setters r [st], acc)
+        | WriteNow -> (r, render r :: acc)) (r, []) sets in
+    String.concat " || " (List.rev (render r :: outs))
   | Err -> "ERR" | Panic -> "PANIC"
 
 let next_hopt t = match next t with "nil" -> None | s -> Some (nat_of_int (int_of_string s))
